@@ -190,19 +190,15 @@ impl<I: InputSource> Decoder<I> {
 /// TODO
 impl DecodeFrom for String {
     fn decode_from(decoder: &mut Decoder<impl InputSource>) -> Result<Self> {
-        // Decode how many bytes are in this string, and attempt to allocate a vec with the necessary capacity.
+        // Decode how many bytes are in this string, and read them. We only allocate memory after we know that these bytes
+        // are really present, so that the memory we use depends on the size of the input, not on the length it announces.
         let length = decoder.decode_varuint()?;
+        let bytes = decoder.read_byte_slice_exact(length)?;
+
+        // Attempt to allocate a vec with the necessary capacity, and copy the bytes into it.
         let mut vector = Vec::new();
         vector.try_reserve_exact(length)?;
-
-        // Read 'length'-many bytes into the vector, and attempt to decode them as a utf-8 string.
-        unsafe {
-            debug_assert_eq!(vector.len(), 0);
-            let bytes =
-                core::mem::transmute::<&mut [core::mem::MaybeUninit<u8>], &mut [u8]>(vector.spare_capacity_mut());
-            decoder.read_bytes_into_exact(bytes)?;
-            vector.set_len(length);
-        }
+        vector.extend_from_slice(bytes);
 
         let string = String::from_utf8(vector)?;
         Ok(string)
@@ -217,9 +213,12 @@ where
     /// TODO
     fn decode_from(decoder: &mut Decoder<impl InputSource>) -> Result<Self> {
         // Decode how many elements are in this sequence, and attempt to allocate a vec with the necessary capacity.
+        // We never reserve space for more elements than there are bytes left in the input (every element takes at least
+        // 1 byte, unless it's zero-sized), so that the memory we use depends on the size of the input, not on the length
+        // it announces. The vec grows on its own if there really are more elements.
         let length = decoder.decode_varuint()?;
         let mut vector = Vec::new();
-        vector.try_reserve_exact(length)?;
+        vector.try_reserve_exact(usize::min(length, decoder.remaining()))?;
 
         // Decode each element, and push them into the vector, one by one.
         for _ in 0..length {
